@@ -33,6 +33,18 @@ CLAIMED = {
  "C11": ("proof", "UF-leaf value lemmas on the three static derivation functions of pr_data.c (all 996 macros enumerated in chunks) + K1 contracts of AugerRate/AugerYield",
          "yield = 1 - omega - sum CK (by name); net total = total - CK-type transitions (by name); rate = raw / net total of the transition's own shell; CK-type unavailable",
          "glue loop in pr_data.c main not under contract (A-gen); [0,1] bounds not decided"),
+ "C07": ("other", "bounded lemma harness on the real outer CompoundParser with the scanner replaced by its assumed contract and setlocale by a ghost-state model",
+         "PARTIAL: composition stage only - element order and counts as scanned, positive molar mass, fractions are numbers, NULL iff exactly one error, elements without atomic weight rejected, scanner runs under the C locale and the caller's locale is restored, no leak",
+         "NOT decided: everything inside the scanner CompoundParserSimple (grammar, rejection classes, algebraic expansion, invariances) and add_compound_data; bit-exact molar mass / fractions attempted in the thorough tier only; bounded to <= 3 / 5 elements"),
+ "C13": ("other", "UF-leaf congruence lemmas (Bragg angle, Q, atomic factors) + bounded structure-factor lemmas on the real Crystal_F_H_StructureFactor_Partial with constant flags and atomic numbers",
+         "PARTIAL: error protocol incl. 'no reflection => error, never NaN', NULL crystal, atomic numbers outside the tables, invalid flags; Bragg angle = asin(hc/E / 2d); Q = E sin(rel theta)/hc; structure factor = explicit sum over atoms with the reported atomic factors (per-element cache, flag semantics)",
+         "NOT decided: Bragg's law, d-spacing invariances, reciprocal-metric agreement, Friedel's law, flag additivity, (0,0,0) Debye reduction (real algebra over libm); bounded to 2 atoms"),
+ "C14": ("other", "per-operation preservation of the representation invariant from an arbitrary well-formed array of each shape (capacity, fill) within the bound; executable contracts for qsort/bsearch; leak and double-free checks",
+         "add (incl. growth beyond capacity, duplicates rejected with the collection unchanged, independent copy, recomputed volume, sorted order), lookup / copy, list, init, free, built-in collection refusing to grow - inductive over histories because every operation maps well-formed states to well-formed states",
+         "bounded: capacity <= 2 (quick) / 3 (thorough), one-character names, 1 / 2 atoms; Crystal_ReadFile (stdio) not covered"),
+ "C15": ("proof", "constant-data lemmas over the real catalogue initialisers (compiled into the harness unit) + lookup lemmas on the real bodies with leak checks + symbol round trip",
+         "NIST / radionuclide / element data well-formedness, index macros name the entries at their positions, by-index = independent deep copy for every entry, by-name agrees, out of range / unknown / NULL = NULL + one error, nothing left allocated, symbol <-> Z bijection",
+         "built-in crystal catalogue (19 MB generated file) and 'nuclide lines have an energy for the daughter' are not part of this check; by-name lookup for 8 entries in quick, all 180 in thorough; lfind by executable contract"),
  "C16": ("proof", "assigns clauses of all K1 contracts (dfcc frame obligations) + static-state scan over the goto programs of every library source",
          "no function under contract writes anything but *error; no direct write to / mutable local static / escaping address of a static object and no global-state libc call anywhere in the library",
          "scan is syntactic (direct writes); functions not under K1 contract rely on the scan only; known finding: setlocale in CompoundParser"),
